@@ -1,17 +1,25 @@
 /*
- * pdlsim_run <timeout_s> <shim.so|-> <plan|-> <program> [args...]
+ * pdlsim_run <wall_s[:cpu_s]> <shim.so|-> <plan|-> <program> [args...]
  * Launcher of tier P: pins the address-space layout (ADDR_NO_RANDOMIZE, so that with the
  * shim's heap/mmap shift the layout is a function of the plan), arms a wall-clock alarm
- * that survives execve (oracle I4, deliberately outside the simulated world), then execs.
+ * and a CPU-time limit that survive execve (oracle I4, deliberately outside the simulated world), then execs.
  */
 #include <stdio.h>
 #include <stdlib.h>
 #include <sys/personality.h>
+#include <sys/resource.h>
 #include <unistd.h>
 
 int main(int argc, char **argv) {
     if (argc < 5) { fprintf(stderr, "usage: pdlsim_run <timeout_s> <shim.so|-> <plan|-> <program> [args...]\n"); return 2; }
     int t = atoi(argv[1]);
+    /* CPU-time limit (immune to machine load): SIGXCPU after cpu_s seconds of CPU */
+    const char *colon = argv[1];
+    while (*colon && *colon != ':') colon++;
+    if (*colon == ':') {
+        int cpu = atoi(colon + 1);
+        if (cpu > 0) { struct rlimit rl = { (rlim_t)cpu, (rlim_t)cpu + 5 }; setrlimit(RLIMIT_CPU, &rl); }
+    }
     personality(ADDR_NO_RANDOMIZE);
     if (argv[2][0] != '-' || argv[2][1]) setenv("LD_PRELOAD", argv[2], 1);
     if (argv[3][0] != '-' || argv[3][1]) setenv("PDLSIM_PLAN", argv[3], 1);
